@@ -108,6 +108,13 @@ def vFrags (c : Cfg) : Nat → Bytes → Option Bytes
         | none => none
     | _ => none
 
+/-- is the element a sequence of items? explicit VR: VR SQ; Implicit VR: a tag the caller declares a
+sequence, or any undefined-length element other than Pixel Data -/
+def isSqOf (c : Cfg) (g e : Nat) (vr : Option VR) (l : Nat) : Bool :=
+  match vr with
+  | some v => v == VR.SQ
+  | none => c.isSeq g e || (l == undef && !(g == 0x7FE0 && e == 0x0010))
+
 inductive Stop where
   | atEnd | atDelim
 deriving DecidableEq, Repr
@@ -127,10 +134,7 @@ def vElems (c : Cfg) : Nat → Stop → Bytes → Option (List PVal × Bytes)
         else match rdHeader c bs with
           | none => none
           | some (_, _, vr, l, r) =>
-            let isSq := match vr with
-              | some v => v == VR.SQ
-              | none => c.isSeq g e || (l == undef && !(g == 0x7FE0 && e == 0x0010))
-            if isSq then
+            if isSqOf c g e vr l then
               if l = undef then
                 match vItems c fuel .atDelim r with
                 | some (vs, r') => match vElems c fuel stop r' with
